@@ -60,6 +60,9 @@ def node_failures(sp, dt):
     except Exception as e:
         return out + ["raises:adjoint:%s" % type(e.__cause__ or e).__name__]
     scale = max(np.linalg.norm(M), np.linalg.norm(N), 1e-30)
+    if N.shape == M.T.shape and not np.linalg.norm(N - M.conj().T) <= tol(dt) * scale:
+        # tolerance relative to the operands, not to a possibly cancelling result (Identity - NUFFT in single precision)
+        scale = max(scale, LO.tree_opscale(sp, dt))
     if N.shape != M.T.shape:
         out.append("adjoint-matrix-shape")
     else:
@@ -205,5 +208,6 @@ PARTS = [
     Part("tree", check_tree, {"quick": 2600, "thorough": 60000}, strategy=lambda: LO.st_tree(max_depth=2)),
     Part("leaf", check_tree, {"quick": 1600, "thorough": 40000}, strategy=lambda: LO.st_tree(max_depth=0)),
     Part("mri", check_tree, {"quick": 500, "thorough": 10000}, strategy=st_mri),
+    Part("deep", check_tree, {"quick": 300, "thorough": 12000}, strategy=lambda: LO.st_tree(max_depth=3, max_in=24)),
     Part("big", check_big, {"quick": 900, "thorough": 20000}, strategy=st_big),
 ]
